@@ -1,4 +1,4 @@
-(* A second fragment of the TOKENIZER inside the model: HTML entities in running text.  Sub-language: the markers
+(* A second fragment of the TOKENIZER inside the model: HTML entities and HTML comments in running text.  Sub-language: the markers
    '&', '#', ';' and non-markers, on ONE line, not beginning with '#' or ';' (at a line start those are list
    markers).  Follows tokenizer.py _parse ('&' branch, default branch), _parse_entity, _really_parse_entity and the
    same functions of tok_parse.c.
@@ -71,6 +71,27 @@ Definition try_entity (t : str) : option (node * nat) :=
       end
   end.
 
+(* HTML comments (_parse_comment / Tokenizer_parse_comment): after "<!--" the FIRST "-->" ends the comment, whose body is
+   kept verbatim (no entity is recognised inside); without an end the "<!--" is text.  Sub-language: '<' is followed by
+   '!', '-', '>', '<', '&', '#', ';' or the end (a letter after '<' starts a tag), and the input does not begin with '-'. *)
+Definition starts_close (s : str) : bool := match s with 45 :: 45 :: 62 :: _ => true | _ => false end.
+Fixpoint find_end (s : str) : option str :=
+  match s with
+  | [] => None
+  | c :: t => if starts_close s then Some []
+              else match find_end t with Some b => Some (c :: b) | None => None end
+  end.
+(* what follows the '<': the comment node and the number of characters it covers (without the '<') *)
+Definition try_comment (t : str) : option (node * nat) :=
+  match t with
+  | 33 :: 45 :: 45 :: rest =>
+      match find_end rest with
+      | Some b => Some (NComment b, (6 + List.length b)%nat)
+      | None => None
+      end
+  | _ => None
+  end.
+
 Inductive epiece := ET (c : N) | EE (n : node).
 
 Fixpoint scan (skip : nat) (s : str) : list epiece :=
@@ -81,6 +102,11 @@ Fixpoint scan (skip : nat) (s : str) : list epiece :=
       | S k => scan k t
       | O => if c =? 38 then
                match try_entity t with
+               | Some (e, k) => EE e :: scan k t
+               | None => ET c :: scan 0 t
+               end
+             else if c =? 60 then
+               match try_comment t with
                | Some (e, k) => EE e :: scan k t
                | None => ET c :: scan 0 t
                end
